@@ -52,7 +52,8 @@ FINDING_WHAT = ("a worker reaped before the daemon saw EOF on its pipes (watcher
 CFG_BASE = {
     "Workers": "<- W2", "Reds": "<- R1", "RedOf": "<- OneRed", "MaxFd": "= 4", "FdAny": "= FALSE",
     "Buffer": "= 2", "MaxChunk": "= 3", "MaxWrite": "= 3", "PipeCap": "= 3", "MaxGen": "= 2",
-    "MaxWrites": "= 2", "MaxCloses": "= 1", "Atomic": "= TRUE", "DumpAt": "<- NoDump", "Record": "= FALSE",
+    "MaxWrites": "= 2", "MaxCloses": "= 1", "MaxChanges": "= 0", "Atomic": "= TRUE", "DumpAt": "<- NoDump",
+    "Record": "= FALSE",
     "Dev_StaleAfterReap": "= TRUE",
 }
 INV_ONE = ["TypeOK", "C17_Prefix", "C17_Done", "C17_Label", "C17_EOF", "C17_Fds", "C17_Watched"]
@@ -71,18 +72,23 @@ MC = {
     # every interleaving of the halves of spawn_process / kill_process as well (Atomic = FALSE)
     "one_na": ({"MaxWrites": "= 1", "MaxCloses": "= 0", "Atomic": "= FALSE"}, INV_ONE),
     "two_na": (dict(TWO, MaxWrites="= 0", MaxCloses="= 0", Atomic="= FALSE"), INV_TWO),
+    # `set NAME stdout_stream.* / stderr_stream.*` while workers run and write (ChangeStream)
+    "one_cs_q": ({"MaxWrites": "= 2", "MaxCloses": "= 0", "MaxChanges": "= 1", "MaxGen": "= 1"}, INV_ONE),
+    "one_cs": ({"MaxWrites": "= 2", "MaxCloses": "= 0", "MaxChanges": "= 2"}, INV_ONE),
+    "two_cs": (dict(TWO, MaxWrites="= 2", MaxCloses="= 0", MaxChanges="= 1", MaxChunk="= 2", MaxWrite="= 2",
+                    PipeCap="= 2", Buffer="= 1"), INV_TWO),
     "cex": (dict(TWO, MaxWrites="= 0", MaxCloses="= 0", Record="= TRUE"), ["NoOrphanDump"]),
 }
 SIM = {"Workers": "<- W3", "Reds": "<- R2", "RedOf": "<- Sim3", "MaxFd": "= 8", "MaxWrite": "= 6", "PipeCap": "= 6",
-       "MaxGen": "= 6", "MaxWrites": "= 100000", "MaxCloses": "= 100000", "Atomic": "= FALSE", "DumpAt": "<- Dump4",
+       "MaxGen": "= 6", "MaxWrites": "= 100000", "MaxCloses": "= 100000", "MaxChanges": "= 100000", "Atomic": "= FALSE", "DumpAt": "<- Dump4",
        "Record": "= TRUE"}
 SIM_DEPTH = 62
 REDOF = {"sim": {1: 1, 2: 1, 3: 2}, "two": {1: 1, 2: 2}}
 MODEL_BUFFER = 2
 
 TIERS = {
-    "quick": {"mc": ["one_q", "two_q", "two_na"], "sim_num": 150, "sim_shards": 4, "live_gens": 20, "live_timeout": 240},
-    "thorough": {"mc": ["one", "two", "one_w3", "one_g3", "one_na", "two_na"], "sim_num": 600, "sim_shards": 8, "live_gens": 200,
+    "quick": {"mc": ["one_q", "two_q", "two_na", "one_cs_q"], "sim_num": 150, "sim_shards": 4, "live_gens": 20, "live_timeout": 240},
+    "thorough": {"mc": ["one", "two", "one_w3", "one_g3", "one_na", "two_na", "one_cs", "two_cs"], "sim_num": 600, "sim_shards": 8, "live_gens": 200,
                  "live_timeout": 900},
 }
 
@@ -130,8 +136,9 @@ def load_circus(repo):
     from tornado import ioloop
     from circus.stream.redirector import Redirector
     from circus.process import Process
+    from circus.watcher import Watcher
     assert ioloop.IOLoop.READ == READ
-    return Redirector, Process
+    return Redirector, Process, Watcher
 
 
 class LoopTable(object):
@@ -233,7 +240,8 @@ class Replay(object):
     """One behaviour on the real objects."""
 
     def __init__(self, classes, beh, redof, usize, salt, pidbase):
-        self.Redirector, self.Process = classes
+        self.Redirector, self.Process = classes[0], classes[1]
+        self.Watcher = classes[2] if len(classes) > 2 else None
         self.beh = beh
         self.redof = redof
         self.usize = usize
@@ -241,10 +249,22 @@ class Replay(object):
         self.pidbase = pidbase
         self.table = LoopTable()
         self.records = []            # (red, stream name, dict) in arrival order
-        self.reds = {}
+        self.cur = {}                # (r, channel) -> id of the stream configured now
+        self.reds0 = {}
+        self.owner = {}              # r -> real Watcher owning the redirector (its stream_redirector is the one used)
         for r in sorted(set(redof.values())):
-            self.reds[r] = self.Redirector(self._collector(r, "stdout"), self._collector(r, "stderr"),
-                                           buffer=MODEL_BUFFER * usize, loop=self.table.facade(r))
+            out, err = self._collector(r, "stdout", 0), self._collector(r, "stderr", 0)
+            self.cur[(r, "stdout")] = self.cur[(r, "stderr")] = 0
+            w = None
+            if self.Watcher is not None:
+                # the redirector as the watcher builds it (_create_redirectors), with the model's read buffer
+                w = self.Watcher("c17r%d" % r, "true", stdout_stream={"stream": out}, stderr_stream={"stream": err},
+                                 loop=self.table.facade(r))
+                w._create_redirectors()
+                w.stream_redirector.buffer = MODEL_BUFFER * usize
+                self.owner[r] = w
+            else:
+                self.reds0[r] = self.Redirector(out, err, buffer=MODEL_BUFFER * usize, loop=self.table.facade(r))
         self.proc = {}               # w -> Process of the current generation
         self.wfd = {}                # w -> {ch: write end or None}
         self.pid = {}                # w -> model pid of the current generation
@@ -255,11 +275,21 @@ class Replay(object):
         self.steps_done = 0
         self.maxfd = 0
 
-    def _collector(self, r, stream):
+    def _collector(self, r, stream, sid):
         def collect(d):
-            self.records.append((r, stream, dict(d)))
+            # (.., id of the stream object that received it, id of the stream configured for the channel right now)
+            self.records.append((r, stream, dict(d), sid, self.cur[(r, stream)]))
         collect.close = lambda: None
         return collect
+
+    def red(self, r):
+        """the redirector the watcher uses NOW (watcher code always goes through self.stream_redirector)"""
+        if r in self.owner:
+            red = self.owner[r].stream_redirector
+            if red is None:
+                raise Mismatch("violation", "C17_Watched: the watcher has no redirector any more while its workers run")
+            return red
+        return self.reds0[r]
 
     # -- real state -------------------------------------------------------------------------------------
     def _open_window(self):
@@ -285,7 +315,10 @@ class Replay(object):
     def real_formulas(self):
         """C17_Prefix / C17_Label / exactly-once on what the real streams received; returns None or a description."""
         cat = {}
-        for r, stream, d in self.records:
+        for r, stream, d, sid, cur in self.records:
+            if sid != cur:
+                return ("C17_Label: a record of the %s channel was handed to stream object #%d of watcher %d while "
+                        "stream #%d was the one configured for that channel" % (stream, sid, r, cur))
             try:
                 pid, name, data = d["pid"], d["name"], d["data"]
             except KeyError as e:
@@ -323,9 +356,19 @@ class Replay(object):
     def step(self, e):
         a = e["a"]
         if a == "start":
-            self.reds[e["r"]].start()
+            self.red(e["r"]).start()
         elif a == "stop":
-            self.reds[e["r"]].stop()
+            self.red(e["r"]).stop()
+        elif a == "chstream":
+            r, ch, sid = e["r"], e["ch"], e["sid"]
+            new = self._collector(r, ch, sid)
+            if r in self.owner:
+                # what `set NAME <ch>_stream.stream ...` does: Watcher.set_opt -> _reload_stream
+                self.owner[r]._reload_stream(ch + "_stream.stream", new)
+                self.owner[r].stream_redirector.buffer = MODEL_BUFFER * self.usize
+            else:
+                self.reds0[r].change_stream(ch, new)
+            self.cur[(r, ch)] = sid
         elif a == "spawn":
             w, mp = e["w"], e["pid"]
             ends = {}
@@ -360,7 +403,7 @@ class Replay(object):
             w = e["w"]
             raised = None
             try:
-                self.reds[self.redof[w]].add_redirections(self.proc[w])
+                self.red(self.redof[w]).add_redirections(self.proc[w])
             except ValueError as ex:
                 raised = ex
             if raised is not None and not e["ok"]:
@@ -406,10 +449,10 @@ class Replay(object):
                 mp = e["pid"]
                 done = sum(len(x[4]) for x in self.expected if x[2] == self.pidbase + mp and x[3] == e["name"])
                 data = self.written[(mp, e["name"])][done:done + e["k"] * self.usize]
-                self.expected.append((e["red"], e["name"], self.pidbase + mp, e["name"], data))
+                self.expected.append((e["red"], e["name"], self.pidbase + mp, e["name"], data, e.get("sid", 0)))
         elif a == "remove":
             w = e["w"]
-            self.reds[self.redof[w]].remove_redirections(self.proc[w])
+            self.red(self.redof[w]).remove_redirections(self.proc[w])
         elif a == "pstop":
             w = e["w"]
             self.proc[w].stop()
@@ -422,7 +465,7 @@ class Replay(object):
         obs = e["obs"]
         a = e["a"]
         # delivered records
-        real = [(r, s, d.get("pid"), d.get("name"), bytes(d.get("data", b""))) for r, s, d in self.records]
+        real = [(r, s, d.get("pid"), d.get("name"), bytes(d.get("data", b"")), sid) for r, s, d, sid, cur in self.records]
         if real != self.expected:
             bad = self.real_formulas()
             if bad:
@@ -730,8 +773,17 @@ def live_main(repo, gens, seed, scratch):
     loop = ioloop.IOLoop.current()
     recs = []                       # (stream, pid, name, data)
 
-    def coll(stream):
+    cur = {}                        # id(watcher-level key) -> {channel: id of the stream configured now}
+    stale = []
+
+    def coll(stream, key="main", sid=0):
+        cur.setdefault(key, {}).setdefault(stream, 0)
+
         def f(d):
+            if cur[key][stream] != sid:
+                stale.append("C17_Label: a %s record of pid %r was handed to stream object #%d while #%d was the one "
+                             "configured (`set ... %s_stream.*` had replaced it)" % (stream, d.get("pid"), sid,
+                                                                                     cur[key][stream], stream))
             recs.append((stream, d.get("pid"), d.get("name"), bytes(d.get("data", b""))))
         f.close = lambda: None
         return f
@@ -787,6 +839,8 @@ def live_main(repo, gens, seed, scratch):
         return {ch: b"".join(v) for ch, v in out.items()}
 
     def check_labels():
+        if stale:
+            return stale[0]
         for stream, rpid, name, data in recs:
             if name != stream:
                 return "C17_Label: data labelled %r arrived at the %s stream (pid %r)" % (name, stream, rpid)
@@ -875,6 +929,12 @@ def live_main(repo, gens, seed, scratch):
                                                  "generations; it had %d with %d workers after the first ones" % (
                                                      n, np, res["generations"], baseline, np))
                         break
+            # `set c17live stdout_stream.* / stderr_stream.*` while the workers run and write (no restart: action 0)
+            if rounds % 3 == 1:
+                ch = rng.choice(["stdout", "stderr"])
+                cur["main"][ch] += 1
+                w.set_opt(ch + "_stream.stream", coll(ch, "main", cur["main"][ch]))
+                res["stream_changes"] = res.get("stream_changes", 0) + 1
             # sibling deaths: some killed from outside and reaped (reap path), some by the watcher (kill path)
             victims = rng.sample(sorted(w.processes), 1 if rng.random() < 0.7 else 2)
             for pid in list(w.processes):
